@@ -36,6 +36,9 @@ import (
 
 var caPEM = []byte("-----BEGIN CERTIFICATE-----\nQ0EgY2VydGlmaWNhdGUgb2YgdGhlIGNvbmZpZ3VyZWQgYXV0aG9yaXR5\n-----END CERTIFICATE-----\n")
 
+// the server certificate file: one leaf certificate in the model's certificate encoding
+var serverCertPEM = []byte("-----BEGIN CERTIFICATE-----\nTEVBRjpzaWduZXItdGVzdDAx\n-----END CERTIFICATE-----\n")
+
 const adminIP = "10.1.2.3"
 
 type daemon struct {
@@ -89,7 +92,7 @@ func start(perms map[string][]*checker.Permissions) *daemon {
 	_, err = grpcapi.New(bg,
 		grpcapi.WithSigner(d.in.Signer), grpcapi.WithLister(ls), grpcapi.WithProcess(d.proc), grpcapi.WithWalletManager(wm),
 		grpcapi.WithAccountManager(am), grpcapi.WithPeers(peers), grpcapi.WithName("signer-test01"), grpcapi.WithID(1),
-		grpcapi.WithListenAddress("0.0.0.0:8881"), grpcapi.WithServerCert([]byte("cert")), grpcapi.WithServerKey([]byte("key")), grpcapi.WithCACert(caPEM))
+		grpcapi.WithListenAddress("0.0.0.0:8881"), grpcapi.WithServerCert(serverCertPEM), grpcapi.WithServerKey([]byte("key")), grpcapi.WithCACert(caPEM))
 	hc.Must(err)
 	vsym.Assume(vsym.Rec("served") == "1")
 	return d
